@@ -445,7 +445,7 @@ def make_machine(col, stage, tier, check_c10, check_c15, weights):
             if live and not self.ex.quit:
                 addr = d.choice(live)
                 g = self.gens[addr]
-                m = g.step_bind(d, iface=w)
+                m = dict(sent=g.sent(True), iface='wl_registry', id=2, name='global', args=[['uint', d.int(1, 60)], ['str', w], ['uint', d.int(1, 9)]])
                 if m is not None:
                     self.t += 1000
                     m['conn'] = None
@@ -497,6 +497,94 @@ def make_machine(col, stage, tier, check_c10, check_c15, weights):
             col.add(stage, self.case, self.res)
 
     return PluginMachine
+
+
+def scenario_case(d, kind, weights):
+    """a short scripted situation (operations for `replay`): the classes a free-running machine reaches too rarely to be relied on"""
+    P = histgen.protocols()
+    ops = []
+    t = [1000]
+    gens = {}
+
+    def msg(addr, m, thread=1, thread_name='main'):
+        g = gens[addr]
+        t[0] += 1000
+        m['conn'] = None
+        m['t_us'] = t[0]
+        decl = P[m['iface']].msg(m['name']) if m['iface'] in P and not (m['iface'] == 'wl_registry' and m['name'] == 'bind') else None
+        ops.append(['msg', addr, thread, dict(gdbsim.closure_of_message(m, g.side, addr, decl), thread_name=thread_name)])
+
+    def start(addr, side=None, n=None, thread=1):
+        g = histgen.ConnGen(None, side or d.choice(['client', 'server']), dict(reuse=0.6, weights=weights, id_bases=[2, 8, 9, 9, 89, 97]))
+        gens[addr] = g
+        msg(addr, g.next(d, 'first'), thread)
+        for _ in range(n if n is not None else d.int(2, 7)):
+            msg(addr, g.next(d), thread)
+        return g
+    cmd = lambda text: ops.append(['cmd', 'wl', text])
+    if kind == 'bare-id':
+        g = start(0)
+        ids = sorted(i for i in g.live if i > 1) or [2]
+        i = d.choice(ids)
+        cmd('breakpoint ' + d.choice(['%d', '%da', '%d, 777', '.nope, %d']) % i)
+        for _ in range(d.int(2, 6)):
+            g.focus = i if i in g.live else None
+            msg(0, g.next(d, 'message'))
+    elif kind == 'twins':
+        g = start(0)
+        w = d.choice(['wl_seat', 'wl_compositor', 'wl_shm'])
+        pair = ['("%s")' % w, '(%s)' % w]
+        if d.chance(0.3):
+            pair.reverse()
+        cmd('breakpoint !')
+        for x in pair:
+            cmd('breakpoint ' + x)
+        # a message only the string alternative selects (the registry announcing that interface), one both select (a bind of it)
+        if 2 in g.live:
+            msg(0, dict(sent=g.sent(True), iface='wl_registry', id=2, name='global', args=[['uint', d.int(1, 60)], ['str', w], ['uint', d.int(1, 9)]]))
+        m = g.step_bind(d, iface=w)
+        if m is not None:
+            msg(0, m)
+        for _ in range(d.int(1, 4)):
+            msg(0, g.next(d))
+    elif kind == 'star-after-exclusion':
+        g = start(0)
+        cmd('breakpoint ' + d.choice(['wl_callback', 'wl_display', '.bind', 'wl_registry']) + ' ! ' + d.choice(['.delete_id', '.sync', 'wl_display', '.done']))
+        cmd('breakpoint ' + d.choice(['*', '*.*', '* . *']))
+        for _ in range(d.int(3, 8)):
+            msg(0, g.next(d, d.choice(['sync', 'delete', 'message', 'bind'])))
+    elif kind == 'declined-quit':
+        g = start(0)
+        cmd('breakpoint ' + d.choice(['wl_display', '.sync', 'wl_callback', '*']))
+        ops.append(['cmd', 'wl', d.choice(['quit', 'q']), 'declined'])
+        for _ in range(d.int(2, 6)):
+            msg(0, g.next(d, d.choice(['sync', 'message', 'delete'])))
+    elif kind == 'off-thread-percent':
+        g = start(0, side='server', n=d.int(1, 4))
+        text = d.choice(['50% done', '%s of %d', '100%', 'plain title'])
+        for _ in range(d.int(1, 3)):
+            msg(0, dict(sent=False, iface='xdg_toplevel', id=900 + d.int(0, 3), name='set_title', args=[['str', text]]), thread=d.choice([2, 3]), thread_name=d.choice([None, 'worker-1']))
+            msg(0, g.next(d), thread=d.choice([1, 2]))
+    elif kind == 'reuse-other-thread':
+        start(0, side=d.choice(['server', 'server', 'client']), n=d.int(0, 3), thread=1)
+        ops.append(['destroy', 0, 1, False])
+        g = histgen.ConnGen(None, 'server', dict(reuse=0.6, weights=weights))
+        gens[0] = g
+        th = d.choice([2, 3])
+        msg(0, g.next(d, 'first') if d.chance(0.7) else g.next(d, 'sync'), thread=th, thread_name=None)
+        for _ in range(d.int(1, 4)):
+            msg(0, g.next(d), thread=th, thread_name=None)
+    elif kind == 'selection-survives-destroy':
+        start(0, n=d.int(1, 3))
+        start(1, n=d.int(1, 3))
+        cmd('connection ' + d.choice(['A', 'B', 'b']))
+        ops.append(['destroy', d.choice([0, 1]), 1, False])
+        g = start(2, n=d.int(1, 3))
+        if d.chance(0.5):
+            ops.append(['destroy', 2, 1, False])
+    else:
+        raise ValueError(kind)
+    return dict(ops=ops, break_text=None, scenario=kind)
 
 
 def replay(case, check_c10, check_c15):
